@@ -63,6 +63,9 @@ def main():
             with open(args.replay) as f:
                 doc = json.load(f)
             case = harness.unhex(doc["case"])
+            if isinstance(case, dict) and case.get("_python_O") and not harness.OPT:
+                # found with the library compiled as under python -O: replay in such a process
+                os.execve(sys.executable, [sys.executable] + sys.argv, dict(os.environ, VERIF_OPT="1"))
             harness.debug_logging(isinstance(case, dict) and bool(case.get("_debug_logging")))
             import warnings
             wctx = warnings.catch_warnings()
@@ -88,6 +91,21 @@ def main():
             if rc == 0:
                 print("replay %s: no violation" % args.replay)
             return rc
+        opt_child = opt_out = None
+        if harness.OPT_PASS:
+            # secondary pass (child of a normal run): same engines, one job in three, library compiled as under python -O; the
+            # accumulated result goes back to the parent, which reports
+            mod.run(ctx)
+            with open(os.environ["VERIF_OPT_OUT"], "w") as f:
+                json.dump(harness.jsonable(ctx.acc.export()), f)
+            return 0
+        if os.environ.get("VERIF_NO_OPT_PASS") != "1":
+            import tempfile
+            fd, opt_out = tempfile.mkstemp(prefix="verif_opt_", suffix=".json")
+            os.close(fd)
+            opt_child = subprocess.Popen([sys.executable, os.path.abspath(__file__), prop, "--tier", args.tier],
+                                         env=dict(os.environ, VERIF_OPT="1", VERIF_OPT_PASS="1", VERIF_OPT_OUT=opt_out),
+                                         stdout=subprocess.PIPE, stderr=subprocess.PIPE, text=True)
         # committed regression replays first (seconds)
         for path in sorted(glob.glob(os.path.join(HERE, "replays", prop, "*.json"))):
             with open(path) as f:
@@ -111,7 +129,28 @@ def main():
             ctx.acc.cls("regression_replays")
             for key in set(ctx.acc.viol) - before:
                 ctx.acc.viol[key]["msg"] = "[regression replay %s] %s" % (os.path.basename(path), ctx.acc.viol[key]["msg"])
-        mod.run(ctx)
+        try:
+            mod.run(ctx)
+        finally:
+            if opt_child is not None:
+                c_out, c_err = opt_child.communicate()
+        if opt_child is not None:
+            try:
+                with open(opt_out) as f:
+                    exported = json.load(f)
+                os.remove(opt_out)
+                if opt_child.returncode != 0:
+                    raise ValueError("exit %d" % opt_child.returncode)
+                exported["nt"] = set(exported.get("nt", []))      # the same cases as in the primary pass (same hashes): not counted twice
+                exported["nt_counted"] = 0
+                ctx.acc.merge(exported)
+                ctx.engines.append("secondary pass: one job in three of every sharded engine above with the goodwe modules compiled as under python -O")
+            except Exception as ex:
+                if os.path.exists(opt_out):
+                    os.remove(opt_out)
+                if not ctx.acc.viol:
+                    raise harness.HarnessError("python -O pass failed (%s): %s" % (ex, (c_err or "")[-1500:]))
+                ctx.acc.notes.append("python -O pass failed: %s" % ex)
         return harness.finish(ctx, level=mod.LEVEL, rule=mod.RULE, assumptions=mod.ASSUMPTIONS,
                               exhaustive=getattr(mod, "EXHAUSTIVE", None))
     except harness.HarnessError as ex:
